@@ -6,7 +6,7 @@
                  - a text node is created from, or assigned, the empty string            (findings 15, 17, 28)
                  - a node with an un-prefixed attribute lands in the scope of a default namespace it is not
                    shielded from by a declaration of its own                             (finding 13a)
-                 - a text is bound as an element's text while that slot is occupied      (finding 29)
+                 (finding 29, a text bound over an occupied text slot, is repaired: the `clean` flag of a move is always true)
    `run_ok`    every update of a script run meets its guard;  `step_ok F w o` for one editing call. *)
 From Delb.Base Require Import PyStr.
 From Delb.Tree Require Import ATree ITree AOps.
